@@ -149,6 +149,8 @@ class Replayer:
         self.rec = Recorder(self.vf, names)
         self.sites = site_of_calls(p)
         self.options = dict(options or {})
+        if perm // 100 == 3:
+            self.options["enable_data_attributes"] = True
         self.compile_error = None
         try:
             self.t = PageTemplate(self.c.source, on_error_handler=self.rec.handler, **self.options)
